@@ -46,7 +46,25 @@ func d7Fixed() []*Prog {
 	}
 	out = append(out, &Prog{Defs: []*GDef{{Name: "p", Body: []*T{opt(a)}}}, Body: []*T{star(seq(g("p"))), g("p")}})
 	out = append(out, &Prog{Defs: []*GDef{{Name: "p", Body: []*T{star(opt(a))}}}, Body: []*T{star(seq(g("p"), ls))}})
+	// a stored pattern that uses another stored pattern twice (the second use is a call into the
+	// relocated copy of the first), everything nullable; an inline subroutine inside a stored pattern
+	nested := []*GDef{{Name: "p", Body: []*T{opt(a)}}, {Name: "pp", Body: []*T{g("p"), g("p")}}}
+	for _, b := range [][]*T{{lit("\n"), g("pp")}, {g("pp"), lit("\n")}, {lit("\n"), g("pp"), g("pp")}, {star(seq(g("pp"), ls)), a}, {lit("\n"), star(g("pp"))}} {
+		out = append(out, &Prog{Defs: nested, Body: b})
+	}
+	inl := []*GDef{{Name: "q", Body: []*T{sub("s", opt(a)), opt(ls), call("s")}}}
+	for _, b := range [][]*T{{lit("\n"), g("q")}, {lit("\n"), g("q"), g("q")}, {star(seq(g("q"))), lit("\n")}} {
+		out = append(out, &Prog{Defs: inl, Body: b})
+	}
 	return out
+}
+
+// replace commands whose `with` list names things that are not text bound by the match: the
+// replacer's own instruction loop must still come to an end
+var c10Replacers = []string{
+	"replace all at least 1 (any = c) named ds with ds", "replace all 'a' with nope", "replace all ('a' = x) or '\\n' with x", "replace all maybe ('a' = x) any with x x",
+	"replace all 'a' with nope 'b' nope", "replace all at least 1 (any = c) named ds with c ds 'x'", "replace all any with", "replace all 'a' with ''",
+	"set t to transform return nope end\nreplace all 'a' with t", "set t to transform return 1 end\nreplace all at least 1 'a' named l with l t l",
 }
 
 var d7Named = []string{
@@ -72,7 +90,7 @@ func init() {
 	register(&Check{
 		ID:    "C10",
 		Level: "model_checking",
-		Rule: "the deterministic VM is run to completion under a step monitor (hook H1 counts executed instructions = transitions of the VM configuration sequence) on every nullable-body program of <= n nodes over {'a', (), line start, file end, not word end, line end, not in 'a'} x {maybe, at least 0, at most 2 (greedy and fewest), at least 1} x or/groups, plus fixed nested/recursive/named-loop programs, x every text over {a,\\n} up to length 4; " +
+		Rule: "the deterministic VM is run to completion under a step monitor (hook H1 counts executed instructions = transitions of the VM configuration sequence) on every nullable-body program of <= n nodes over {'a', (), line start, file end, not word end, line end, not in 'a'} x {maybe, at least 0, at most 2 (greedy and fewest), at least 1} x or/groups, plus fixed nested/recursive/named-loop programs (incl. stored patterns using stored patterns twice) and replace commands whose `with` list names loops, unbound names and captures of untaken alternatives (the replacer's own instruction loop is covered by the CPU-time watchdog), x every text over {a,\\n} up to length 4; " +
 			fmt.Sprintf("a run that executes more than %d instructions or makes no progress for 20 s is a violation; states = executed VM configurations, transitions = instructions executed; non-trivial = runs whose program has a loop with a nullable body", stepBudgetC10),
 		Assume: []string{"budget is ~500x above the largest legitimate step count of the enumerated scope (reported as maxima.vm_steps_per_run)", "loops outside the VM instruction loop are covered by the 20 s per-unit watchdog only"},
 		Budget: map[string]int{"quick": 150, "thorough": 1500},
@@ -228,6 +246,16 @@ func runC10(c *Ctx) {
 		}
 		for _, b := range d7Named {
 			src := "find all " + b
+			if c.Unit(func() string { return src }) {
+				c.Count("programs", 1)
+				termUnit(c, src, long, true)
+			}
+		}
+	}
+	if c.Level("replacers") {
+		long := append(texts("a\n", 4), "aaaaaa", "a\na\na\n")
+		for _, src := range c10Replacers {
+			src := src
 			if c.Unit(func() string { return src }) {
 				c.Count("programs", 1)
 				termUnit(c, src, long, true)
